@@ -157,7 +157,7 @@ class Mir:
             self.consts.setdefault(m.group(1), Fn(m.group(1), [], [], m.group(2), m.group(3)))
         for m in re.finditer(r'^static (?:mut )?([^\n]*?): ([^\n]*?) = \{\n(.*?)^\}', txt, re.S | re.M):
             self.consts[m.group(1)] = Fn(m.group(1), [], [], m.group(2), m.group(3))
-        for m in re.finditer(r'^const (\S+): [^\n]*? = (const [^\n]*);$', txt, re.M):
+        for m in re.finditer(r'^const ((?:<impl at [^>]*>|[^\s:]|::)+): [^\n]*? = (const [^\n]*);$', txt, re.M):
             self.inline_consts[m.group(1)] = m.group(2)
 
 def load_source_info(srcroot):
@@ -570,6 +570,13 @@ class Interp:
                     if trfull and trfull != short: self.impls[(tkey, trfull, m.group(3))] = name
                     self.impls.setdefault((tkey, short, m.group(3)), name)
                 self.impls.setdefault((ty, '*', m.group(3)), name)
+        self.assoc_consts = {}
+        for name in list(self.consts) + list(self.mir.inline_consts):
+            m = re.match(r'(.*)::<impl at (.*?)>::(\w+)$', name)
+            if m and m.group(2).startswith('src/'):
+                try: _, ty = impl_self_of(m.group(2), self.files)
+                except (KeyError, Unsupported, AttributeError): continue
+                self.assoc_consts[m.group(1) + '::' + ty + '::' + m.group(3)] = name
         self.statics, self.stubs, self.resolve_cache = {}, {}, {}
         self.depth, self.stack = 0, []
         self.called = set()
@@ -653,6 +660,9 @@ class Interp:
         if mp:
             cand = frame['__fn'] + '::' + mp.group(1)
             if cand in self.consts: return self.run_const(cand)
+        if c in self.assoc_consts:
+            n = self.assoc_consts[c]
+            return self.run_const(n) if n in self.consts else self.operand(c_operand(self.mir.inline_consts[n]), frame)
         if '::' in c and self.variant_index(c) is not None: return Adt(self.variant_index(c), [])
         if '::' in c: return FnItem(c)
         raise Unsupported('const ' + c)
